@@ -42,7 +42,7 @@ pub fn defs() -> Vec<CheckDef> {
         CheckDef {
             id: "C26",
             level: "exploration",
-            rule: "(a) for each seed/harness grammar that LALRPOP accepts, each filler of {space, newline, tab, `// c\\n`, `/* c */`, `/* /* n */ */`} inserted at each token gap separately, at all gaps at once, and all removable whitespace removed; oracle: outputs token-identical after the header. (b) action snippets: all sequences of <= 3 atoms (thorough 4) from {string/raw-string/char/byte literals containing braces, quotes and backslashes, nested (), [], {} groups, line and block comments, lifetimes, keywords} that are balanced Rust by construction, placed in an action, a `use`, a type annotation and a `#![..]` attribute; oracle: the output's token stream equals the output for a placeholder with the placeholder replaced by the snippet's tokens. distinct_nontrivial = perturbed texts / snippets that are accepted and byte-different from the original",
+            rule: "(a) for each seed/harness grammar that LALRPOP accepts, each filler of {space, newline, tab, `// c\\n`, `/* c */`, `/* /* n */ */`, `/* a/*/b*/c **/` (a nested opener directly followed by `/`, a closer preceded by `*`), `/*/**/*/`} inserted at each token gap separately, at all gaps at once, and all removable whitespace removed; oracle: outputs token-identical after the header. (b) action snippets: all sequences of <= 3 atoms (thorough 4) from {string/raw-string/char/byte literals containing braces, quotes and backslashes, nested (), [], {} groups, line and block comments, lifetimes, keywords} that are balanced Rust by construction, placed in an action, a `use`, a type annotation and a `#![..]` attribute; oracle: the output's token stream equals the output for a placeholder with the placeholder replaced by the snippet's tokens. distinct_nontrivial = perturbed texts / snippets that are accepted and byte-different from the original",
             evaluations: "texts",
             nontrivial: "accepted_perturbations",
             mc: None,
@@ -307,7 +307,7 @@ fn run_c26(ctx: &mut Ctx) {
     crate::fw::CASE_BUDGET_MS.store(600_000, std::sync::atomic::Ordering::SeqCst);
     let dir = drv::scratch_sub(&ctx.scratch.clone(), "t");
     let thorough = ctx.tier == Tier::Thorough;
-    let fillers: Vec<&str> = if thorough { vec![" ", "\n", "\t", " // c\n", " /* c */ ", " /* /* n */ */ "] } else { vec!["\n", " // c\n", " /* /* n */ */ "] };
+    let fillers: Vec<&str> = if thorough { vec![" ", "\n", "\t", " // c\n", " /* c */ ", " /* /* n */ */ ", " /* a/*/b*/c **/ ", " /*/**/*/ "] } else { vec!["\n", " // c\n", " /* /* n */ */ ", " /* a/*/b*/c **/ "] };
     let mut idx = 0u64;
     // (a) layout perturbations
     for (name, text) in seed_texts(if thorough { 4000 } else { 600 }) {
